@@ -7,10 +7,13 @@ import SpyneModel.Generated.Facts03
 namespace SpyneModel.Flat.Ex
 open SpyneModel SpyneModel.Flat SpyneModel.Generated
 
-def occ1 : Occ := ⟨false, 0, some 1⟩
-def occN : Occ := ⟨true, 0, none⟩
-def clsC : Ty := .obj 2 [("i".toList, occ1, .prim .int), ("s".toList, occ1, .prim .str)]
-def sig : List Fld := [("p".toList, occN, clsC), ("q".toList, occ1, .prim .bool)]
+def occ1 : Occ := ⟨false, 0, some 1, true⟩
+def occN : Occ := ⟨true, 0, none, true⟩
+def pInt : PK := .integer .unbounded {}
+def pStr : PK := .unicode 0 none none []
+def pBool : PK := .boolean
+def clsC : Ty := .obj 2 [("i".toList, occ1, .prim pInt), ("s".toList, occ1, .prim pStr)]
+def sig : List Fld := [("p".toList, occN, clsC), ("q".toList, occ1, .prim pBool)]
 def dot : Text := ".".toList
 
 /-- `p[2].i=7&p[2].s=x&p[10].i=5&q=true`: sparse indexes -/
@@ -29,19 +32,20 @@ theorem sig_wf : WfSig sig := by simp [WfSig, NamesOk, WfFields, WfTy, sig, clsC
 theorem sig_keys : KeysOk dot sig := by unfold KeysOk; decide
 theorem sig_opt : OptFields sig := by simp [OptFields, OptTy, sig, clsC, occ1, occN]
 
-theorem int_ok (i : Int) (h : (intText i).length ≤ facts03.intMaxStrLen) : LeafOk facts03 .int (.int i) := h
+theorem int_ok (i : Int) (h : (intToText i).length ≤ facts03.leaf.intMaxStrLen .unbounded) : LeafOk facts03 pInt (.int i) :=
+  ⟨by simp [pInt, PrimTy.valueOk, IntKind.lo, IntKind.hi, Range.holds], by simpa [fitsGuard, pInt] using h⟩
 
 theorem sparse_wt : WtMembers facts03 sig sparse := by
-  refine ⟨by decide, ⟨occN, 2, _, rfl, rfl, ⟨by decide, trivial⟩, ?_⟩, ⟨by decide, ⟨occ1, .bool, rfl, rfl, trivial⟩, trivial⟩⟩
-  refine ⟨by simp, ⟨by decide, ⟨occ1, .int, rfl, rfl, int_ok 7 (by decide +kernel)⟩,
-    ⟨by decide, ⟨occ1, .str, rfl, rfl, trivial⟩, trivial⟩⟩, ?_⟩
-  exact ⟨by simp, ⟨by decide, ⟨occ1, .int, rfl, rfl, int_ok 5 (by decide +kernel)⟩, trivial⟩, trivial⟩
+  refine ⟨by decide, ⟨occN, 2, _, rfl, rfl, ⟨by decide, trivial⟩, ?_⟩, ⟨by decide, ⟨occ1, pBool, rfl, rfl, ⟨rfl, rfl⟩⟩, trivial⟩⟩
+  refine ⟨by simp, ⟨by decide, ⟨occ1, pInt, rfl, rfl, int_ok 7 (by decide +kernel)⟩,
+    ⟨by decide, ⟨occ1, pStr, rfl, rfl, ⟨by decide, rfl⟩⟩, trivial⟩⟩, ?_⟩
+  exact ⟨by simp, ⟨by decide, ⟨occ1, pInt, rfl, rfl, int_ok 5 (by decide +kernel)⟩, trivial⟩, trivial⟩
 
 theorem contig_wt : WtMembers facts03 sig contig := by
-  refine ⟨by decide, ⟨occN, 2, _, rfl, rfl, ⟨by decide, trivial⟩, ?_⟩, ⟨by decide, ⟨occ1, .bool, rfl, rfl, trivial⟩, trivial⟩⟩
-  refine ⟨by simp, ⟨by decide, ⟨occ1, .int, rfl, rfl, int_ok 7 (by decide +kernel)⟩,
-    ⟨by decide, ⟨occ1, .str, rfl, rfl, trivial⟩, trivial⟩⟩, ?_⟩
-  exact ⟨by simp, ⟨by decide, ⟨occ1, .int, rfl, rfl, int_ok 5 (by decide +kernel)⟩, trivial⟩, trivial⟩
+  refine ⟨by decide, ⟨occN, 2, _, rfl, rfl, ⟨by decide, trivial⟩, ?_⟩, ⟨by decide, ⟨occ1, pBool, rfl, rfl, ⟨rfl, rfl⟩⟩, trivial⟩⟩
+  refine ⟨by simp, ⟨by decide, ⟨occ1, pInt, rfl, rfl, int_ok 7 (by decide +kernel)⟩,
+    ⟨by decide, ⟨occ1, pStr, rfl, rfl, ⟨by decide, rfl⟩⟩, trivial⟩⟩, ?_⟩
+  exact ⟨by simp, ⟨by decide, ⟨occ1, pInt, rfl, rfl, int_ok 5 (by decide +kernel)⟩, trivial⟩, trivial⟩
 
 theorem contig_contig : ContigMembers contig := by
   simp [ContigMembers, ContigVal, ContigElems, contig, List.range, List.range.loop]
@@ -55,7 +59,7 @@ def twelve : Doc :=
    "p[10].i", "p[11].i"].map (fun k => (k.toList, [some "1".toList]))
 
 /-- `f(a: Inner, b: Inner)` with `class Inner: x = Integer`: the same class for two arguments -/
-def clsInner : Ty := .obj 5 [("x".toList, occ1, .prim .int)]
+def clsInner : Ty := .obj 5 [("x".toList, occ1, .prim pInt)]
 def sigAB : List Fld := [("a".toList, occ1, clsInner), ("b".toList, occ1, clsInner)]
 def docAB : Doc := [("a.x".toList, [some "1".toList]), ("b.x".toList, [some "2".toList])]
 def valAB : Members := [("a".toList, .obj [("x".toList, .leaf (.int 1))]), ("b".toList, .obj [("x".toList, .leaf (.int 2))])]
